@@ -17,7 +17,11 @@ res = {}
 try:
     for p in props:
         t = time.time()
+        ev = os.path.join(V, 'evidence', p + '.json')
+        saved = open(ev).read() if os.path.exists(ev) else None
         r = subprocess.run([os.path.join(V, 'check'), p, '--tier', os.environ.get('TIER', 'quick')], cwd=V, capture_output=True, text=True)
+        if saved is not None:
+            open(ev, 'w').write(saved)      # evidence files describe runs on the unchanged tree only
         vio = [l for l in r.stdout.splitlines() if l.startswith('VIOLATION')]
         why = [l for l in r.stderr.splitlines() if 'failing input' in l or 'broken tie' in l][:2]
         res[p] = {'rc': r.returncode, 'violation': vio[:1], 'why': why, 's': round(time.time() - t, 1)}
